@@ -44,6 +44,10 @@ claim("C19", "static analysis: typestate by guard dominance on the pruned SSA CF
       "Decides that no operation can reach the descriptor, reader, writer or process of a closed handle without raising, that the single-cursor reconciliation steps lie on every path where they are needed, and that the mode switch opens files with the flags ISO C prescribes. It does not decide what bytes are read after which writes.",
       BASE + "ISO C fopen mode table written out in the checker.", "DESIGN.md §3 C19")
 
+claim("C13", "static analysis: who-may-write ownership of every package-level variable (stores, element/field stores through loaded pointers, map updates, writes through parameters one call deep, escape of shared mutable objects into Lua-visible storage), call-graph reachability (VTA) of FunctionProto writers from the execution roots with Compile removed, guard dominance for channel payloads",
+      "Decides that the library packages have no run-time writes to package-level state, that nothing the VM can reach without going through Compile writes a prototype, and that every channel payload passed the goroutine-safety check that refuses functions, userdata, threads and tables with metatables. It does not decide heap race freedom or delivery order (Go runtime).",
+      BASE + "Exported configuration variables are set by the embedder before states run.", "DESIGN.md §3 C13")
+
 for pid in ["C%02d" % i for i in range(2, 21)]:
     if pid not in P:
         na(pid, "check not built yet in this session (planned rules: DESIGN.md §3 %s); not claimed until its rules run clean" % pid)
